@@ -3,7 +3,8 @@ import GapicModel.Model.Mock
 open Lean GapicModel GapicModel.Regex
 namespace GapicModel.Driver
 
-open Model.Mock in
+open Model.Mock
+
 def opC13Sample (j : Json) : Except String Json := do
   let t ← getStrL j "template"
   let k ← (← j.getObjVal? "k").getNat?
@@ -11,6 +12,169 @@ def opC13Sample (j : Json) : Except String Json := do
   let r := sample k toks
   pure (Json.mkObj [("value", jstr r.1), ("next", jnat r.2.1), ("names", jarr (r.2.2.map jnat))])
 
-def opsC13 : List (String × (Json → Except String Json)) := [("c13.sample", opC13Sample)]
+/-! ### JSON views of the mock-value model -/
+
+def c13Bool (j : Json) (k : String) : Except String Bool := do (← j.getObjVal? k).getBool?
+def c13Nat (j : Json) (k : String) : Except String Nat := do (← j.getObjVal? k).getNat?
+
+def c13OptStr (j : Json) (k : String) : Except String (Option (List Char)) := do
+  match j.getObjVal? k with
+  | .ok (Json.str s) => pure (some s.toList)
+  | _ => pure none
+
+mutual
+def c13_pyValJson : PyVal → Json
+  | .none => Json.null
+  | .bool b => Json.bool b
+  | .str s => Json.mkObj [("s", jstr s)]
+  | .bytes s => Json.mkObj [("b", jarr (s.map fun c => jnat c.toNat))]
+  | .int i => Json.mkObj [("i", Json.num (JsonNumber.fromInt i))]
+  | .dec n d => Json.mkObj [("f", jarr [jnat n, jnat d])]
+  | .dnil => Json.mkObj [("d", jarr [])]
+  | .dcons k v r => Json.mkObj [("d", jarr (jarr [jstr k, c13_pyValJson v] :: c13_dictEntriesJson r))]
+  | .lnil => Json.mkObj [("l", jarr [])]
+  | .lcons v r => Json.mkObj [("l", jarr (c13_pyValJson v :: c13_listItemsJson r))]
+def c13_dictEntriesJson : PyVal → List Json
+  | .dcons k v r => jarr [jstr k, c13_pyValJson v] :: c13_dictEntriesJson r
+  | _ => []
+def c13_listItemsJson : PyVal → List Json
+  | .lcons v r => c13_pyValJson v :: c13_listItemsJson r
+  | _ => []
+end
+
+/-- fuel = nesting depth of the JSON text -/
+def c13_pyValOfJson : Nat → Json → Except String PyVal
+  | 0, _ => throw "PyVal nested too deep"
+  | fuel + 1, j => do
+    match j with
+    | Json.null => pure .none
+    | Json.bool b => pure (.bool b)
+    | _ =>
+      if let .ok (Json.str s) := j.getObjVal? "s" then return .str s.toList
+      if let .ok (Json.arr a) := j.getObjVal? "b" then
+        return .bytes (← a.toList.mapM fun x => do pure (Char.ofNat (← x.getNat?)))
+      if let .ok v := j.getObjVal? "i" then return .int (← v.getInt?)
+      if let .ok (Json.arr a) := j.getObjVal? "f" then
+        match a.toList with
+        | [n, d] => return .dec (← n.getNat?) (← d.getNat?)
+        | _ => throw "bad f"
+      if let .ok (Json.arr a) := j.getObjVal? "d" then
+        let kvs ← a.toList.mapM fun e => do
+          match e with
+          | Json.arr #[Json.str k, v] => pure (k.toList, ← c13_pyValOfJson fuel v)
+          | _ => throw "bad d entry"
+        return kvs.foldr (fun kv acc => .dcons kv.1 kv.2 acc) .dnil
+      if let .ok (Json.arr a) := j.getObjVal? "l" then
+        let vs ← a.toList.mapM (c13_pyValOfJson fuel)
+        return vs.foldr (fun v acc => .lcons v acc) .lnil
+      throw "bad PyVal"
+
+def c13_mockErrStr : MockErr → String
+  | .fuel => "fuel" | .emptyEnum => "emptyEnum" | .dangling => "dangling" | .noKeyValue => "noKeyValue"
+
+def c13_pyTOfStr : String → Option PyT
+  | "bool" => some .bool | "str" => some .str | "bytes" => some .bytes | "int" => some .int
+  | "float" => some .float | _ => none
+
+def c13FType (j : Json) : Except String FType := do
+  match (← j.getArr?).toList with
+  | [Json.str "prim", Json.str t] =>
+    match c13_pyTOfStr t with
+    | some t => pure (.prim t)
+    | none => throw "bad prim"
+  | [Json.str "enum", Json.str ident, Json.arr vals] =>
+    let vs ← vals.toList.mapM fun v => do
+      match v with
+      | Json.arr #[Json.str n, num] => pure (n.toList, ← num.getInt?)
+      | _ => throw "bad enum value"
+    pure (.enum ident.toList vs)
+  | [Json.str "msg", id] => pure (.msg (← id.getNat?))
+  | _ => throw "bad ftype"
+
+def c13Field (j : Json) : Except String Field := do
+  pure ⟨← getStrL j "name", ← c13Nat j "fid", ← c13FType (← j.getObjVal? "ty"), ← c13Bool j "repeated"⟩
+
+def c13Env (j : Json) : Except String Env := do
+  (← getArrL j "env").mapM fun m => do
+    let fs ← (← getArrL m "fields").mapM c13Field
+    pure (⟨← getStrL m "ident", ← c13Nat m "cls", fs, ← c13Bool m "map", ← c13Bool m "any"⟩ : MsgDef)
+
+def opC13ProtoType (j : Json) : Except String Json := do
+  let n ← c13Nat j "type"
+  pure (Json.mkObj [("py", match pyTOfProtoType n with
+    | some .bool => Json.str "bool" | some .str => Json.str "str" | some .bytes => Json.str "bytes"
+    | some .int => Json.str "int" | some .float => Json.str "float" | none => Json.null)])
+
+def opC13Primitive (j : Json) : Except String Json := do
+  let t ← (← j.getObjVal? "py").getStr?
+  match c13_pyTOfStr t with
+  | none => throw "bad py"
+  | some t => pure (Json.mkObj [("value", c13_pyValJson (primitiveMock t (← getStrL j "name") (← c13Nat j "suffix")))])
+
+/-- mock_value_original_type of every listed field, each with a fresh visited set (cached property) -/
+def opC13MockOrig (j : Json) : Except String Json := do
+  let env ← c13Env j
+  let fs ← (← getArrL j "fields").mapM c13Field
+  pure (Json.mkObj [("values", jarr (fs.map fun f =>
+    match mockOrig env f with
+    | .ok v => Json.mkObj [("ok", c13_pyValJson v), ("fits", Json.bool (fits false env v f.ty f.repeated)),
+                           ("fits_strict", Json.bool (fits true env v f.ty f.repeated))]
+    | .error e => Json.mkObj [("error", Json.str (c13_mockErrStr e))]))])
+
+def opC13Merged (j : Json) : Except String Json := do
+  pure (Json.mkObj [("value", c13_pyValJson (mergedMock (← c13_pyValOfJson 64 (← j.getObjVal? "mock")) (← c13_pyValOfJson 64 (← j.getObjVal? "other"))))])
+
+def c13_mockExprJson : MockExpr → Json
+  | .none => Json.null
+  | .lit v => Json.mkObj [("lit", c13_pyValJson v)]
+  | .enumMember i n => Json.mkObj [("enum", jarr [jstr i, jstr n])]
+  | .ctor i s a => Json.mkObj [("ctor", jarr [jstr i, jstr s, c13_mockExprJson a])]
+  | .mapLit k v => Json.mkObj [("map", jarr [c13_mockExprJson k, c13_mockExprJson v])]
+  | .list1 e => Json.mkObj [("list", c13_mockExprJson e)]
+
+def opC13MockValue (j : Json) : Except String Json := do
+  let env ← c13Env j
+  let fs ← (← getArrL j "fields").mapM c13Field
+  let depth ← c13Nat j "depth"
+  pure (Json.mkObj [("values", jarr (fs.map fun f =>
+    match mockValueF depth env f with
+    | .ok e => Json.mkObj [("ok", c13_mockExprJson e)]
+    | .error e => Json.mkObj [("error", Json.str (c13_mockErrStr e))]))])
+
+def c13_pieceJson : Piece → Json
+  | .lit s => jarr [Json.str "lit", jstr s]
+  | .var p t => jarr [Json.str "var", jstr p, optJson jstr t]
+
+def c13_assignsJson (a : List (List Char × PyVal)) : Json := jarr (a.map fun kv => jarr [jstr kv.1, c13_pyValJson kv.2])
+
+/-- parse a URI, and build the sample request from the per-variable facts the harness read off the schema
+(`vars`: [{"str": bool, "other": PyVal}] aligned with the variables of the parse) -/
+def opC13HttpSample (j : Json) : Except String Json := do
+  let uri ← getStrL j "uri"
+  let pieces := parseUri uri
+  let pv := pieceVars pieces
+  let infos ← getArrL j "vars"
+  if infos.length ≠ pv.length then
+    return Json.mkObj [("pieces", jarr (pieces.map c13_pieceJson)), ("mismatch", jnat pv.length)]
+  let vars ← (pv.zip infos).mapM fun (v, i) => do
+    pure (⟨v.1, v.2, ← c13Bool i "str", ← c13_pyValOfJson 64 (← i.getObjVal? "other")⟩ : PVar)
+  let req := sampleRequest 0 vars
+  let url := fill (fun p => strOf (getLast p req)) pieces
+  pure (Json.mkObj [("pieces", jarr (pieces.map c13_pieceJson)), ("assigns", c13_assignsJson req), ("url", optJson jstr url)])
+
+def opC13MixinSample (j : Json) : Except String Json := do
+  let uri ← getStrL j "uri"
+  let body ← c13OptStr j "body"
+  pure (Json.mkObj [("assigns", c13_assignsJson (mixinSampleRequest (pieceVars (parseUri uri)) body))])
+
+def opC13RoutingSample (j : Json) : Except String Json := do
+  let t ← getStrL j "template"
+  pure (Json.mkObj [("stripped", optJson jstr (stripNamed t)), ("value", optJson jstr (routingSample t))])
+
+def opsC13 : List (String × (Json → Except String Json)) :=
+  [("c13.sample", opC13Sample), ("c13.proto_type", opC13ProtoType), ("c13.primitive", opC13Primitive),
+   ("c13.mock_orig", opC13MockOrig), ("c13.merged", opC13Merged), ("c13.mock_value", opC13MockValue),
+   ("c13.http_sample", opC13HttpSample), ("c13.mixin_sample", opC13MixinSample),
+   ("c13.routing_sample", opC13RoutingSample)]
 
 end GapicModel.Driver
